@@ -109,7 +109,7 @@ PROPS["C04"] = dict(
                "growth per container) are accepted as observed and pinned per container kind, see DESIGN C04.",
     quick=[("asan", 16, 36), ("plain", 8, 36)],
     thorough=[("asan", 16, 500), ("plain", 16, 1500), ("memcheck", 8, 3, {"budget": 900})],
-    floors={"quick": {"array_growth_reallocations": 10, "array_shrink_reallocations": 10, "push_at_front": 5, "push_at_0_on_an_empty_list": 20,
+    floors={"quick": {"array_growth_reallocations": 10, "array_shrink_reallocations": 10, "push_at_front": 5, "push_at_0_on_an_empty_list": 20, "concat_from_a_tuple": 30, "concat_from_a_tuple_onto_an_empty_container": 3,
                       "push_at_last_index": 5, "pop_at_front": 5, "pop_at_last_index": 5, "sorts_with_ties": 5,
                       "rem_with_duplicates": 5, "concat": 5, "assign": 5, "copy": 5, "push_at_negative": 5}},
     rule="case = one Array/List/Tuple driven through 30-220 (thorough: up to 1800) random in-range operations, oracle "
